@@ -810,9 +810,10 @@ func oracle(c Case) (evid.Info, error) {
 			info.Skip = "not a bare name"
 			return info, nil
 		}
-		if (sh.Pos == "var" || sh.Pos == "alias") && templateNames(sh)[v] {
-			// a variable or alias spelled like another name of the template is another query (a duplicate column, a
-			// shadowed variable, a shape that no longer qualifies for a lowering), not the same query with another name
+		if templateNames(sh)[v] {
+			// a name spelled like another name of the template is another query (a duplicate column, a shadowed
+			// variable, two kinds that share one kind id, a shape that no longer qualifies for a lowering), not the same
+			// query with another name
 			info.Skip = "value is a name the template already uses"
 			return info, nil
 		}
